@@ -305,46 +305,49 @@ theorem c13_project_fresh_partial (h : List (Op Text)) (hn : h.length ≤ u32Max
     rw [(query_of_inv i₁.db (fun g => rfl) hv k id).1,
         (query_of_inv i₂.db (fun g => (hsrc g).symm) hv k id).1]
 
-/-! ### Known finding in the analysis itself (`C13-enum-next-value-overflow`)
+/-! ### A repaired finding in the analysis itself (`C13-enum-next-value-overflow`, fixed by 0bd32a4)
 
 The clause "no query panics for any file contents" is about the queries, which the model leaves
-uninterpreted; it is tested, not proved.  The one place where the test stream found it false is
-modelled so that the defect and what remains true are stated precisely. -/
+uninterpreted; it is tested, not proved.  The one place where the test stream found it false —
+`next_value = value + 1` in `collect_enum_type` for an enumeration value of `i64::MAX` — is
+modelled, and after the fix (`saturating_add`) the full statement holds for it. -/
 
-/-- **Counterexample to "no query panics for any file contents".**  `TYPE E : (A :=
-9223372036854775807); END_TYPE`: the single explicit value is `i64::MAX`, `next_value = value + 1`
-overflows and (dev profile) `file_symbols` of the file — and, through
-`project_symbol_tables_query`, every project-level query of every file — panics. -/
-theorem c13_counterexample_enum_overflow : enumAssign [some i64Max] 0 = .panic := by
-  decide
-
-/-- **Partial claim for enumeration values.**  Guard: every explicit value, and the start value,
-leaves room for the values that follow it (`v + length ≤ i64::MAX`).  Then the value bookkeeping of
-`collect_enum_type` does not overflow, whatever mixture of explicit and implicit values. -/
-theorem c13_enum_values_partial (l : List (Option Int)) (next : Int)
-    (hnext : next + l.length ≤ i64Max)
-    (hexp : ∀ v, some v ∈ l → v + l.length ≤ i64Max) :
-    enumAssign l next ≠ .panic := by
+/-- **Enumeration values never overflow.**  For every mixture of explicit values (any `i64`) and
+implicit ones, every value assigned by `collect_enum_type` and every intermediate `next_value` is an
+`i64`: the arithmetic of the model never leaves the range in which `i64::saturating_add` is exact,
+so there is no overflow to panic on (dev profile) or to wrap (release). -/
+theorem c13_enum_values_no_overflow (l : List (Option Int)) (next : Int)
+    (hnext : i64Min ≤ next ∧ next ≤ i64Max)
+    (hexp : ∀ v, some v ∈ l → i64Min ≤ v ∧ v ≤ i64Max) :
+    ∀ x ∈ enumAssign l next, i64Min ≤ x ∧ x ≤ i64Max := by
   induction l generalizing next with
   | nil => simp [enumAssign]
   | cons e rest ih =>
-    have hlen : ((e :: rest).length : Int) = rest.length + 1 := by simp
-    have hpos : (0 : Int) ≤ rest.length := Int.natCast_nonneg _
-    have hval : e.getD next + rest.length + 1 ≤ i64Max := by
+    have hval : i64Min ≤ e.getD next ∧ e.getD next ≤ i64Max := by
       cases e with
-      | none => simp only [Option.getD_none]; omega
-      | some v =>
-        have := hexp v (List.mem_cons_self ..)
-        simp only [Option.getD_some]; omega
-    have hrest := ih (e.getD next + 1) (by omega)
-      (fun v hv => by have := hexp v (List.mem_cons_of_mem _ hv); omega)
-    unfold enumAssign
-    simp only
-    have hno : ¬ e.getD next + 1 > i64Max := by omega
-    rw [if_neg hno]
-    cases hr : enumAssign rest (e.getD next + 1) with
-    | ok l => simp
-    | panic => exact absurd hr hrest
+      | none => simpa using hnext
+      | some v => simpa using hexp v (List.mem_cons_self ..)
+    have hsucc : i64Min ≤ satSucc (e.getD next) ∧ satSucc (e.getD next) ≤ i64Max := by
+      unfold satSucc
+      split
+      · unfold i64Min i64Max; omega
+      · unfold i64Min at *; omega
+    intro x hx
+    unfold enumAssign at hx
+    rcases List.mem_cons.1 hx with rfl | hx
+    · exact hval
+    · exact ih _ hsucc (fun v hv => hexp v (List.mem_cons_of_mem _ hv)) x hx
+
+/-- Below the saturation point nothing changed: an implicit value is its predecessor plus one. -/
+theorem c13_enum_values_consecutive (e : Option Int) (rest : List (Option Int)) (next : Int)
+    (h : e.getD next < i64Max) :
+    enumAssign (e :: none :: rest) next =
+      e.getD next :: (e.getD next + 1) :: enumAssign rest (satSucc (e.getD next + 1)) := by
+  have : satSucc (e.getD next) = e.getD next + 1 := by
+    unfold satSucc
+    have : ¬ e.getD next + 1 > i64Max := by omega
+    simp [this]
+  simp [enumAssign, this]
 
 /-! ### Non-vacuity -/
 
@@ -408,8 +411,10 @@ example :
   have e2 : (projRun (loadFresh ([(0, 102), (1, 101)] : List (Nat × Nat)))).ids = [(0, 0), (1, 1)] := by decide
   simp only [e1, e2]
 
-/-- `c13_enum_values_partial` is not vacuous: explicit and implicit values up to `i64::MAX - 1`. -/
-example : enumAssign [none, some 5, none, some (i64Max - 1)] 0 = .ok [0, 5, 6, i64Max - 1] := by
+/-- Regression of the former counterexample: `E : (A := 9223372036854775807, B)` — the explicit
+`i64::MAX` no longer overflows, the implicit successor repeats `i64::MAX`; and an ordinary mixture. -/
+example : enumAssign [some i64Max, none] 0 = [i64Max, i64Max] ∧
+    enumAssign [none, some 5, none, some (i64Max - 1), none] 0 = [0, 5, 6, i64Max - 1, i64Max] := by
   decide
 
 end TrustVerif.C13
